@@ -8,6 +8,9 @@ A Kani unit is contracts/<unit>/kani.toml (+ kani_harness.rs, optional spec.rs, 
     file = "bigtools/src/bbi/bbiread.rs"     # source file the harness module is appended to
     crate_dir = "bigtools"                   # optional, where `cargo kani` runs (default "bigtools")
     harness_file = "kani_harness.rs"         # included as  #[cfg(kani)] mod verif_kani_<name> { include!(..); }
+    module_path = ["parse", "parser"]         # optional: put that module inside this inline `mod a { mod b { .. } }`
+                                             # (just before its closing brace) instead of at the end of the file —
+                                             # needed when the items are private to a nested module
 
     [[contract]]                             # attribute lines inserted immediately above `fn <fn>`
     fn = "overlaps"                          # optional: within = "<regex on an impl header>"
@@ -82,7 +85,8 @@ KANI_LOCK = os.path.join(VERIF, 'notes', 'Cargo.lock.kani-compatible')
 BASE_FLAGS = ['--lib', '--no-default-features', '--features', 'read,write', '-Z', 'function-contracts']
 DEFAULT_TIMEOUT = {'quick': 300, 'thorough': 1800}
 MEM_KB = int(os.environ.get('VERIF_KANI_MEM_KB', str(24 * 1024 * 1024)))   # ulimit -v, 24 GB
-JOBS = int(os.environ.get('VERIF_KANI_JOBS', '4'))
+JOBS = int(os.environ.get('VERIF_KANI_JOBS', '6'))
+MAX_CEX_PER_UNIT = int(os.environ.get('VERIF_KANI_MAX_CEX', '3'))   # playback+replay is heavy: first few failed harnesses only
 CEX_TIMEOUT = int(os.environ.get('VERIF_KANI_CEX_TIMEOUT', '900'))
 REPLAY_MARK = 'VERIF-REPLAY-REPRODUCED'
 
@@ -165,7 +169,7 @@ def _qualified(unit, fn):
     parts = rel[:-3].split(os.sep) if rel.endswith('.rs') else rel.split(os.sep)
     if parts and parts[-1] in ('mod', 'lib', 'main'):
         parts = parts[:-1]
-    return '::'.join(parts + [_modname(unit), fn])
+    return '::'.join(parts + list(unit.get('module_path') or []) + [_modname(unit), fn])
 
 
 def _rsync(src, dst, extra=()):
@@ -213,6 +217,42 @@ def _env(extra=None):
 
 # --------------------------------------------------------------------------------------------
 # injection (insert-only) and the add-only guard
+
+def _module_insert_offset(src, masked, path):
+    """Offset (start of the line holding the closing brace) of the inline module a::b::.. in src."""
+    lo, hi = 0, len(src)
+    for name in path:
+        found = None
+        for m in re.finditer(r'\bmod\s+%s\s*\{' % re.escape(name), masked[lo:hi]):
+            s0 = lo + m.start()
+            depth = 0
+            for ch in masked[lo:s0]:
+                if ch == '{':
+                    depth += 1
+                elif ch == '}':
+                    depth -= 1
+            if depth == 0:
+                found = lo + m.end() - 1
+                break
+        if found is None:
+            raise AnchorLost('inline module `%s` (of module_path %s) not found' % (name, '::'.join(path)))
+        cb = rustlex.match_close(masked, found)
+        lo, hi = found + 1, cb
+    ls = src.rfind('\n', 0, hi) + 1
+    if src[ls:hi].strip():
+        raise AnchorLost('closing brace of module %s does not start its line; cannot insert lines before it' % '::'.join(path))
+    return ls, src[ls:hi]
+
+
+def _add_module(src, masked, unit, text_lines):
+    """Insert whole lines: at the end of the file, or just before the closing brace of unit['module_path']."""
+    path = unit.get('module_path') or []
+    if not path:
+        return src + '\n' + ''.join(l + '\n' for l in text_lines)
+    off, indent = _module_insert_offset(src, masked, path)
+    body = ''.join(indent + '    ' + l + '\n' for l in text_lines)
+    return src[:off] + '\n' + body + src[off:]
+
 
 def inject(copy_root, units):
     """Insert contract attribute lines above anchored fns and append the harness modules.
@@ -266,8 +306,14 @@ def inject(copy_root, units):
             for u in good:
                 errs[u['name']] = 'add-only guard: %s does not end with a newline' % rel
             continue
-        for u in good:
-            out += '\n#[cfg(kani)]\nmod %s { include!("%s"); }\n' % (_modname(u), os.path.join(u['dir'], u['harness_file']))
+        # nested-module insertions first (offsets refer to the text before appending), then end-of-file ones
+        for u in sorted(good, key=lambda x: 0 if x.get('module_path') else 1):
+            lines = ['#[cfg(kani)]', 'mod %s { include!("%s"); }' % (_modname(u), os.path.join(u['dir'], u['harness_file']))]
+            try:
+                out = _add_module(out, rustlex.mask(out), u, lines)
+            except AnchorLost as e:
+                errs[u['name']] = 'anchor lost: %s' % e
+                info.pop(u['name'], None)
         open(path, 'w', encoding='utf-8').write(out)
     return info, errs
 
@@ -570,8 +616,13 @@ def run_replay(unit, harness, values, repo, workdir, target=None):
     path = os.path.join(copy, unit['file'])
     if not os.path.exists(path):
         return None, 'source file %s missing' % unit['file']
-    with open(path, 'a', encoding='utf-8') as f:
-        f.write('\n#[cfg(test)]\n#[allow(unused, dead_code, clippy::all)]\nmod verif_replay {\n%s\n}\n' % body)
+    src = open(path, encoding='utf-8').read()
+    lines = ['#[cfg(test)]', '#[allow(unused, dead_code, clippy::all)]', 'mod verif_replay {'] + body.split('\n') + ['}']
+    try:
+        src = _add_module(src, rustlex.mask(src), unit, lines)
+    except AnchorLost as e:
+        return None, 'replay module could not be placed: %s' % e
+    open(path, 'w', encoding='utf-8').write(src)
     cmd = ['cargo', 'test', '--lib', '--no-default-features', '--features', 'read,write', '--offline', 'verif_replay',
            '--', '--nocapture', '--test-threads', '1']
     env = _env({'CARGO_TARGET_DIR': target or os.path.join(workdir, 'replay-target')})
@@ -834,8 +885,11 @@ def run(prop, units, scratch, tier, repo):
     # counterexample extraction + replay (only for failed harnesses; serial: these are rare and heavy)
     for u in live:
         r = results[u['name']]
-        for entry in r['failed']:
+        for k, entry in enumerate(r['failed']):
             h = [x for x in u['harness'] if x['name'] == entry['harness']][0]
+            if k >= MAX_CEX_PER_UNIT:
+                entry['replay_result'] = 'counterexample search skipped (budget: first %d failed harnesses of a unit)' % MAX_CEX_PER_UNIT
+                continue
             try:
                 _counterexample(u, h, entry, copy, target, env, repo, scratch)
             except Exception as e:  # never let the cex search change a verdict
